@@ -81,7 +81,7 @@ PROPS['C20']['race_legs'] = {
     'quick': [dict(scenario='C20', runs=480)] + [dict(scenario=s, runs=96) for s in ('C09', 'C08', 'C14', 'C01', 'C06', 'C18', 'C03', 'C15b')],
     'thorough': [dict(scenario='C20', runs=40000)] + [dict(scenario=s, runs=4000) for s in ('C09', 'C08', 'C14', 'C01', 'C06', 'C18', 'C03', 'C15b', 'C17', 'C10', 'C04')]}
 add_leg('C20', 'D_deadline_two_readers', 1, 10, 1, 10)
-add_leg('C20', 'D_write_deadline_moved', 400, 30, 40000, 600)
+add_leg('C20', 'D_write_deadline_moved', 3000, 30, 100000, 600)
 add_leg('C20', 'D_gate_token', 12000, 60, 400000, 900)
 add_leg('C16', 'C16r', 4000, 60, 300000, 1200)
 add_leg('C16', 'D_seq_shift', 1, 10, 1, 10)
